@@ -55,6 +55,12 @@ func H_C01_CorruptRestart(v *verifrt.T) {
 	v.Quiesce()
 	v.FireTimers()
 	v.Quiesce()
+	if !crashed {
+		// the failure had been reported before the (idle) process died: it is
+		// still reported after the restart, so that the sender transmits again
+		// at once instead of polling until it gives up
+		v.Assert(e.s.GetFileStatus("a", v.Now()) == sts.ConfirmFailed, "C01 content that failed validation is still reported as failed after a restart")
+	}
 	for _, f := range v.Files(e.final) {
 		if !strings.HasSuffix(f, ".lck") {
 			v.Assert(false, "C01 a restart never delivers content that does not match its announced hash")
